@@ -24,6 +24,9 @@ D == [ok |-> TRUE, name |-> "mp", reqs |-> {":typing"}, typeDecl |-> <<<<"t1", "
                    [k |-> "when", c |-> At("p", <<"?x">>),
                     es |-> <<[k |-> "upd", op |-> "decrease", f |-> "g", a |-> <<>>, e |-> [k |-> "num", v |-> <<1, 2>>]]>>]>>]>>]
 
+DomTree == TreeOfDomain([name |-> D.name, reqs |-> <<":typing">>, typeDecl |-> D.typeDecl, consts |-> <<>>,
+                         preds |-> D.preds, funcs |-> D.funcs, actions |-> D.actions], "each", FALSE)
+
 Calls == {[act |-> "inc", args |-> <<o>>] : o \in Objs} \cup {[act |-> "mv", args |-> <<o1, o2>>] : o1, o2 \in Objs}
 Inits == {[facts |-> {<<"p", <<"a">>>>}, fl |-> (<<"g", <<>>>> :> <<0, 1>>)],
           [facts |-> {<<"p", <<"a">>>>, <<"q", <<"b">>>>, <<"p", <<"b">>>>}, fl |-> (<<"g", <<>>>> :> <<3, 2>>)]}
